@@ -216,6 +216,15 @@ def check_case(ctx, prop, case, algos, report=None, hooks=None, tables=True, sel
         # then every algorithm runs again on it
         c2 = dict(B.c, dup=B.c["dup"] + 2, floss=B.c["floss"] + 1, hgt=(INF if (B.c["hgt"] != INF and B.c["dup"] % 2 == 0) else (3 if B.c["hgt"] == INF else B.c["hgt"] + 1)))
         B.set_costs_inplace(c2)
+        if kind == "unordered" and len(B.G.leaves()) >= 2:
+            # ... and the synteny of one leaf is replaced in place (the mapping is a plain dict of the same input object)
+            lv = B.G.leaves()[0]
+            other = B.syn[B.G.leaves()[-1]]
+            if tuple(other) != tuple(B.syn[lv]):
+                B.syn = dict(B.syn)
+                B.syn[lv] = tuple(other)
+                B.inp.leaf_syntenies[B.gnode[lv]] = B._syn_value(list(other))
+                ctx.count("mon.after_inplace_synteny_change")
         for algo in algos:
             mn2, _ = suite.model_solve(B, algo, canonical=False)
             obs = SC.call(algo, B.inp, ALL if len(B.G.leaves()) <= 6 else ANY)
